@@ -1183,6 +1183,11 @@ htp_status_t htp_connp_RES_FINALIZE(htp_connp_t *connp) {
 
     //unread last end of line so that RES_LINE works
     if (connp->out_current_read_offset < (int64_t)bytes_left) {
+        // The beginning of the line is in out_buf (it arrived in earlier chunks). The bytes of the
+        // current chunk that were appended to it are going to be read again, so take them back out.
+        if ((connp->out_buf != NULL) && (connp->out_buf_size >= (size_t) connp->out_current_read_offset)) {
+            connp->out_buf_size -= connp->out_current_read_offset;
+        }
         connp->out_current_read_offset=0;
     } else {
         connp->out_current_read_offset-=bytes_left;
